@@ -58,6 +58,7 @@ def run(ctx):
     from .c18 import _r1 as write_dominates_ok
     write_dominates_ok(ctx, W)
     ctx.include("C18", rules=("R11", "R12", "R9"))
+    _r5_reply_leaves_the_dispatcher_untouched(ctx)
     Tw = terms(P, wbody)
     where = ctx.where(wbody, W.term["sp"])
     cols = W.stmt["cols"]
@@ -205,3 +206,31 @@ def _duration_const_secs(P, name):
             if a[0] == "const":
                 return a[1]
     return None
+
+
+def _r5_reply_leaves_the_dispatcher_untouched(ctx):
+    """the lease time a client is told is the one in the reply the handler built from the recorded lease: between the handler and
+    the caller of the dispatcher nothing edits the reply (a "fit to the client's size" pass that drops options drops option 51 first)"""
+    P = ctx.P
+    from .c13 import _handlers
+    cg = callgraph(P)
+    hs, top = _handlers(P, cg)
+    if len(top) != 1:
+        return          # C13.R1 reports an ambiguous dispatcher
+    disp = P.bodies[top[0]]
+    ctx.saw(disp)
+    T = terms(P, disp)
+    rets = [norm(T.rvalue(st["rv"], bb, idx)) for bb, idx, st in disp.stmts() if st["p"] == (0,) and "rv" in st]
+    rets += [norm(("call", callee_name(tm) or "(call through a function pointer)", tuple(T.call_args(bb)), bb)) for bb, tm in disp.calls() if tuple(tm["dest"]) == (0,)]
+    n = 0
+    for r in rets:
+        if r[0] == "agg" and r[2] == "Err":
+            continue
+        if r[0] == "call" and str(r[1]).endswith("::from_residual"):
+            continue            # `?`: an error on its way out
+        n += 1
+        # (a call through a pointer: C13.R1 checks that the pointer is one of the handlers)
+        direct = r[0] == "call" and (r[1] in hs or r[1] == "(call through a function pointer)" or isinstance(r[1], tuple))
+        ctx.check(direct, "R5", "reply-returned-as-the-handler-built-it", ctx.where(disp),
+                  "the dispatcher must return the handler's result itself (is %s)" % show(r)[:120])
+    ctx.floor("R5", "successful returns of the dispatcher", n, 1)
